@@ -96,6 +96,19 @@ func (vm *VM) spawn(fr *Frame, x *ssa.Go) {
 	vm.P.pending = append(vm.P.pending, pg)
 }
 
+// runPendingAt runs only the i-th queued goroutine (to completion or until it parks).
+func (vm *VM) runPendingAt(i int) int {
+	if i < 0 || i >= len(vm.P.pending) {
+		return 0
+	}
+	pg := vm.P.pending[i]
+	rest := append(append([]*pendingGo(nil), vm.P.pending[:i]...), vm.P.pending[i+1:]...)
+	vm.P.pending = []*pendingGo{pg}
+	n := vm.runPendingGoroutines()
+	vm.P.pending = append(rest, vm.P.pending...)
+	return n
+}
+
 // runPendingGoroutines runs every queued goroutine to completion (FIFO, including the ones
 // spawned meanwhile).  Returns the number that parked.
 func (vm *VM) runPendingGoroutines() int {
